@@ -62,15 +62,26 @@ def run(cmd, timeout=3600, **kw):
         text=True, timeout=timeout, **kw)
 
 
+def prop_modules(prop_id: str) -> list[str]:
+    """`Props/C14.lean`, `Props/C14Text.lean`, … all state theorems of property C14"""
+    d = os.path.join(LEAN, "Tfv", "Props")
+    out = []
+    for f in sorted(os.listdir(d)):
+        if re.fullmatch(re.escape(prop_id) + r"[A-Za-z]*\.lean", f):
+            out.append(f[:-5])
+    return out
+
+
 def theorems_of(prop_id: str) -> list[str]:
-    path = os.path.join(LEAN, "Tfv", "Props", f"{prop_id}.lean")
-    if not os.path.exists(path):
-        return []
-    with open(path, encoding="utf-8") as f:
-        src = strip_comments(f.read())
-    ns = re.search(r"^namespace\s+(\S+)", src, re.M)
-    prefix = (ns.group(1) + ".") if ns else ""
-    return [prefix + m.group(1) for m in re.finditer(r"^\s*theorem\s+([^\s:({\[]+)", src, re.M)]
+    names = []
+    for mod in prop_modules(prop_id):
+        path = os.path.join(LEAN, "Tfv", "Props", f"{mod}.lean")
+        with open(path, encoding="utf-8") as f:
+            src = strip_comments(f.read())
+        ns = re.search(r"^namespace\s+(\S+)", src, re.M)
+        prefix = (ns.group(1) + ".") if ns else ""
+        names += [prefix + m.group(1) for m in re.finditer(r"^\s*theorem\s+([^\s:({\[]+)", src, re.M)]
+    return names
 
 
 def build_and_audit(prop_id: str, clean: bool = False, leanchecker: bool = False) -> dict:
@@ -80,7 +91,8 @@ def build_and_audit(prop_id: str, clean: bool = False, leanchecker: bool = False
     with Lock():
         if clean:
             run(["lake", "clean"])
-        r = run(["lake", "build", f"Tfv.Props.{prop_id}", "tfv-driver"])
+        mods = [f"Tfv.Props.{m}" for m in prop_modules(prop_id)] or [f"Tfv.Props.{prop_id}"]
+        r = run(["lake", "build"] + mods + ["tfv-driver"])
         res["log"] = r.stdout[-6000:]
         if r.returncode != 0:
             res["ok"] = False
@@ -100,7 +112,8 @@ def build_and_audit(prop_id: str, clean: bool = False, leanchecker: bool = False
             os.makedirs(adir, exist_ok=True)
             apath = os.path.join(adir, f"{prop_id}.lean")
             with open(apath, "w") as f:
-                f.write(f"import Tfv.Props.{prop_id}\n")
+                for m in mods:
+                    f.write(f"import {m}\n")
                 for n in names:
                     f.write(f"#print axioms {n}\n")
             a = run(["lake", "env", "lean", apath])
@@ -129,7 +142,7 @@ def build_and_audit(prop_id: str, clean: bool = False, leanchecker: bool = False
             res["ok"] = False
             res["broken"].append(f"no theorems found in Tfv/Props/{prop_id}.lean")
         if leanchecker and r.returncode == 0:
-            c = run(["lake", "env", "leanchecker", f"Tfv.Props.{prop_id}"], timeout=3600)
+            c = run(["lake", "env", "leanchecker"] + mods, timeout=3600)
             res["leanchecker"] = c.stdout[-1500:]
             if c.returncode != 0:
                 res["ok"] = False
